@@ -159,6 +159,32 @@ def v2_text_corruptions():
     return out
 
 
+def byte_corruptions():
+    """[(label, version kind, bytes, text or None)]: one stray non-ASCII byte (or UTF-8 pair) at the start, in the middle or
+    at the end of a field value - the value is then outside its domain however the bytes are decoded (dropping them
+    would make it valid again).  v1: every field before NEWFILEUID (the last field has nothing behind it that bounds
+    it); v2: the numeric and enumerated attributes."""
+    out = []
+    base = H.v1_fields(102, old="NONE", new="NONE")
+    data = (H.render_v1(base) + BODY).encode("ascii")
+    for field in H.V1_FIELDS[:-1]:
+        val = base[field].encode("ascii")
+        i = data.index(field.encode("ascii") + b":" + val) + len(field) + 1
+        for pos in sorted({0, len(val) // 2, len(val)}):
+            for b in (b"\xff", b"\x80", b"\xc3\xa9", b"\xe2\x82\xac"):
+                out.append((f"stray-byte-in-{field}", 1, data[: i + pos] + b + data[i + pos :], None))
+    base2 = H.v2_fields(203)
+    text2 = H.render_v2(base2)
+    for field in ("OFXHEADER", "VERSION", "SECURITY"):
+        val = base2[field]
+        i = text2.index(f'{field}="{val}"') + len(field) + 2
+        for pos in sorted({0, len(val) // 2, len(val)}):
+            for ins in ("\u00e9", "\ufffd", "\u20ac"):
+                tx = text2[: i + pos] + ins + text2[i + pos :]
+                out.append((f"stray-character-in-{field}", 2, (tx + BODY).encode("utf_8"), tx))
+    return out
+
+
 def ctor_corruptions():
     """[(label, cls name, kwargs)]"""
     out = []
@@ -197,6 +223,11 @@ def faults(t):
         data = (text + BODY).encode("ascii")
         expect_refused(t, f"C12|v2|text|{label}", case, lambda: hd.parse_header(io.BytesIO(data)))
         expect_refused(t, f"C12|v2|text-class-parse|{label}", case, lambda: hd.OFXHeaderV2.parse(text))
+    for label, v, data, text in byte_corruptions():
+        case = {"kind": "bytes", "v": v, "label": label, "hex": data.hex()}
+        expect_refused(t, f"C12|v{v}|bytes|{label}", case, lambda: hd.parse_header(io.BytesIO(data)))
+        if text is not None:
+            expect_refused(t, f"C12|v{v}|text-class-parse|{label}", dict(case, text=text), lambda: hd.OFXHeaderV2.parse(text))
     for label, clsname, kw in ctor_corruptions():
         cls = getattr(hd, clsname)
         case = {"kind": "ctor", "cls": clsname, "label": label, "kwargs": {k: v for k, v in kw.items()}}
@@ -252,7 +283,8 @@ def run(ctx):
         "rule": f"valid: {len(versions)} versions (all supported + every 100..199) x security (None,NONE,TYPE1) x UIDs (default, 5 of length 36 jointly covering "
         "[A-Za-z0-9_-], every single character as a 1-character UID for supported versions) = " + str(len(jobs)) + " round trips; faults (non-trivial cases): "
         "every foreign token (tokens of all other fields + near misses) per enumerated field, OFXHEADER of the other kind, VERSION non-numeric/4-digit/unsupported, "
-        "37-character UIDs, every mandatory field removed, every adjacent pair transposed - through header text (parse_header and class parse) and constructor "
+        "37-character UIDs, every mandatory field removed, every adjacent pair transposed, one stray non-ASCII byte / character at 3 places of each field value "
+        "(v1 fields before NEWFILEUID, v2 numeric and enumerated attributes; 4 resp. 3 byte patterns) - through header text (parse_header and class parse) and constructor "
         "keywords; make_header for versions outside 1xx/2xx",
         "valid_round_trips": len(jobs),
         "fault_cases": nfaults,
